@@ -135,6 +135,20 @@ add("F131", "C17", "fixed", "'5 € + 3 €': the collision test compared byte o
 add("F132", "C17", "fixed", "'ŞŞŞ 12 may' reported Month (7, 13): month and zone lexers took offsets from a case-mapped copy of the line", free("ŞŞŞ 12 may\nİ İ 1 january 1\nıııı 15:00 EST"), commit="4cf889b")
 add("F120b", "C17", "fixed", "'5 # jan 2020': overlapping Month and Comment tokens", free("5 # jan 2020"), commit="46657ee")
 
+# ---- C15 -------------------------------------------------------------------------------------
+def c15(text, cls, lang="en", src="C15"):
+    return {"sub": "print-read-print", "case": {"g": {"prelude": [], "line": {"toks": [{"pre": text, "num": None, "post": "", "class": cls, "space": 0}]}, "lang": lang, "tz": None, "src": src},
+            "seps": 0, "num": [2, True, True], "pct": [2, True, True], "money": [False, True]}}
+add("F110", "C15", "open", "an amount in SEK prints with the symbol 'kr' ('10,00 kr'), which the reader resolves to DKK through the alias kr->dkk and prints as '10,00 kr.' (the symbol is ambiguous between SEK, NOK, DKK and ISK in the configuration; no safe repair)",
+    c15("10 sek", "Money"), signature="the value is Money in SEK, out1 ends with ' kr' and out2 == out1 + '.'")
+add("F111", "C15", "open", "a duration with 360-364 remaining days prints '12 months N days' (greedy decomposition, 12 x 30 days), which reads back as one year (365 days): '364 days' -> '12 months 4 days' -> '1 year 4 days'",
+    c15("364 days", "Other"), signature="the value is a duration whose printed form contains '12 months' / '12 ay' and out2 != out1")
+add("F112", "C15", "fixed", "Turkish could not read the time it prints: '10:30:00 UTC' was 'No more token' (no rule attaching a zone to a time in tr)", c15("10:30", "Time", lang="tr"), commit="2042dd2")
+add("F113", "C15", "fixed", "'-0,004' printed '-0', which typed back in prints '0'",
+    {"sub": "print-read-print", "case": {"g": {"prelude": [], "line": {"toks": [{"pre": "", "num": {"v": 0.004, "sign": 1, "group": False}, "post": "", "class": "Number", "space": 0}]}, "lang": "en", "tz": None, "src": "C07"},
+            "seps": 0, "num": [2, True, True], "pct": [2, True, True], "money": [False, True]}}, commit="bb52307")
+add("F50b", "C15", "fixed", "an amount in BGN prints '10,00 лв.', which could not be read back (the Cyrillic alias never matched)", c15("10 bgn", "Money"), commit="a22987f")
+
 EXTRA = "tools/kf_extra.py"
 try:
     exec(open("/verif/" + EXTRA).read())
